@@ -281,8 +281,14 @@ func errorStops(free, c *ICase, sum *Summary) {
 		addFail(sum, "a failing user function did not fail the decode with its own error", c, want, o.Res)
 		return
 	}
-	if len(o.Trace) != k+1 || !reflect.DeepEqual(o.Trace, ft[:k+1]) {
-		addFail(sum, "rules kept executing after the failing call (trace is not the fault-free prefix)", c, ft[:k+1], o.Trace)
+	// the failing call's entry is marked with `!` after its kind; apart from that
+	// the trace is the fault-free prefix
+	want2 := append([]string{}, ft[:k+1]...)
+	if i := strings.Index(want2[k], ":"); i > 0 {
+		want2[k] = want2[k][:i] + "!" + want2[k][i:]
+	}
+	if len(o.Trace) != k+1 || !reflect.DeepEqual(o.Trace, want2) {
+		addFail(sum, "rules kept executing after the failing call (trace is not the fault-free prefix)", c, want2, o.Trace)
 	}
 }
 
